@@ -550,7 +550,13 @@ func (e *Engine) convert(x Value, from, to types.Type, g *Term, pos token.Pos) V
 				}
 				elems, ok := e.sliceElems(v)
 				if !ok {
-					return Poison{why: "string(symbolic bytes)"}
+					if isRune {
+						return Poison{why: "string(symbolic runes)"}
+					}
+					// symbolic length / several backing arrays: opaque string, injective in the byte content
+					sv := e.atomString("bytes", []Value{v})
+					sv.alts[0].alen = v.len
+					return sv
 				}
 				if isRune {
 					rs := make([]rune, len(elems))
@@ -566,8 +572,14 @@ func (e *Engine) convert(x Value, from, to types.Type, g *Term, pos token.Pos) V
 				bs := make([]byte, len(elems))
 				for i, el := range elems {
 					t, ok := el.(*Term)
-					if !ok || !t.IsConst() {
-						return Poison{why: "string(symbolic bytes)"}
+					if !ok {
+						return Poison{why: "string(poison bytes)"}
+					}
+					if !t.IsConst() {
+						// symbolic content: an opaque string, injective in the bytes (supports ==, map keys, copying)
+						sv := e.atomString("bytes", []Value{v})
+						sv.alts[0].alen = v.len
+						return sv
 					}
 					bs[i] = byte(t.val)
 				}
